@@ -168,9 +168,15 @@ void run_t(vf::Ctx& c)
     s.pat.n = n;
     s.pat.seed = t.stream_seed();
     s.pat.negate = t.pick(3) == 0;
+    bool huge_scale = false;
     {
-        int const e = static_cast<int>(t.range(0, 20)) - 10;
+        int const e = static_cast<int>(t.range(0, 22)) - 10;
         s.pat.scale = static_cast<T>(std::pow(10.0L, static_cast<long double>(e)));
+        // values whose squares leave the range of T although they and their sum do not (the sum is still claimed), and
+        // values a few binades above the smallest normal number
+        if (e == 11 && (s.pat.kind == 4 || s.pat.kind == 9 || s.pat.kind == 10)) { s.pat.scale = T(1e10); } // (patterns that span many decades themselves)
+        else if (e == 11) { s.pat.scale = static_cast<T>(std::ldexp(static_cast<long double>(std::numeric_limits<T>::max()), -24) / static_cast<long double>(n)); huge_scale = true; c.label("squares-overflow"); }
+        if (e == 12) { s.pat.scale = static_cast<T>(std::ldexp(static_cast<long double>(std::numeric_limits<T>::min()), 40)); c.label("near-smallest-normal"); }
     }
     s.pat.interleave = t.pick(5) == 0;
     int const integrator = static_cast<int>(t.pick(3));
@@ -198,7 +204,7 @@ void run_t(vf::Ctx& c)
     };
     if (dist == 1) { add_dist(false, T(1)); }
     if (dist == 2) { add_dist(true, T(1)); }
-    if (dist == 3) { add_dist(false, static_cast<T>(1e9)); add_dist(true, T(1)); }
+    if (dist == 3) { add_dist(false, huge_scale ? T(1) : static_cast<T>(1e9)); add_dist(true, T(1)); } // (no further factor on top of values near the largest finite number)
     std::uint32_t const seed = 1 + static_cast<std::uint32_t>(t.next() % 100000u);
     std::mt19937 eng(seed);
     c.desc << vf::type_name<T>::get() << " N=" << n << " pattern=" << s.pat.name() << (s.pat.negate ? " negated" : "") << (s.pat.interleave ? " every-other-value-non-finite" : "") << " scale=" << vf::show(s.pat.scale)
